@@ -45,7 +45,7 @@ func init() {
 func genCases(seed int64, tier string) []core.Case {
 	nh := 10
 	if tier == "thorough" {
-		nh = 120
+		nh = 60
 	}
 	var out []core.Case
 	rng := rand.New(rand.NewSource(seed*7919 + 1))
@@ -72,13 +72,13 @@ type setup struct {
 func mkSetup(d caseData) setup {
 	rng := rand.New(rand.NewSource(d.HSeed))
 	fam := gen.NewFamily(rng, gen.FamilyOpts{Versions: 4, MaxSlots: 6, Hooks: true, Keep: true})
-	ops := gen.NewHistory(rng, gen.HistoryOpts{Len: d.HLen, Versions: 4, MaxHistory: true, Atomic: true, Uninstall: true})
+	ops := gen.NewHistory(rng, gen.HistoryOpts{Len: d.HLen, Versions: 4, MaxHistory: true, Atomic: true, Uninstall: true, Failures: true})
 	return setup{fam, ops}
 }
 
 func (s setup) exec(w *env.World, agent string, op env.Op) env.OpResult {
 	var ch = s.fam.Files(op.Chart).Build()
-	return w.Exec(agent, relName, op, ch)
+	return w.ExecInject(agent, relName, op, ch)
 }
 
 // prefix runs ops[:p] fault-free and returns the world.
